@@ -310,8 +310,17 @@ func (dr *dirRepo) BlobGet(d digest.Digest) (io.ReadSeekCloser, error) {
 	return dr.blobGet(d, false)
 }
 
+// isInit reports whether the repo directory has been initialized as an OCI Layout.
+func (dr *dirRepo) isInit(locked bool) bool {
+	if !locked {
+		dr.mu.Lock()
+		defer dr.mu.Unlock()
+	}
+	return dr.exists
+}
+
 func (dr *dirRepo) blobGet(d digest.Digest, locked bool) (io.ReadSeekCloser, error) {
-	if !dr.exists {
+	if !dr.isInit(locked) {
 		return nil, fmt.Errorf("repo does not exist %s: %w", dr.name, types.ErrNotFound)
 	}
 	if err := d.Validate(); err != nil {
@@ -330,7 +339,7 @@ func (dr *dirRepo) blobGet(d digest.Digest, locked bool) (io.ReadSeekCloser, err
 // blobMeta returns metadata on a blob.
 func (dr *dirRepo) blobMeta(d digest.Digest, locked bool) (blobMeta, error) {
 	m := blobMeta{}
-	if !dr.exists {
+	if !dr.isInit(locked) {
 		return m, fmt.Errorf("repo does not exist %s: %w", dr.name, types.ErrNotFound)
 	}
 
@@ -366,7 +375,7 @@ func (dr *dirRepo) blobCreate(locked bool, opts ...BlobOpt) (BlobCreator, string
 			return nil, "", err
 		}
 	}
-	if !dr.exists {
+	if !dr.isInit(locked) {
 		err := dr.repoInit(locked)
 		if err != nil {
 			return nil, "", err
@@ -438,7 +447,7 @@ func (dr *dirRepo) blobDelete(d digest.Digest, locked bool) error {
 	if *dr.conf.Storage.ReadOnly {
 		return types.ErrReadOnly
 	}
-	if !dr.exists {
+	if !dr.isInit(locked) {
 		return fmt.Errorf("repo does not exist %s: %w", dr.name, types.ErrNotFound)
 	}
 	if err := d.Validate(); err != nil {
